@@ -15,7 +15,7 @@ fn cases(ob: &str) -> Vec<String> {
         out.push(format!("deep:{}:{}:200000", name, crate::hex(unit.as_bytes())));
     }
     out.push("nest100:".into());
-    if let Some(seed) = crate::gen::thorough_seed(ob) { for t in crate::gen::texts(seed, 600, true) { out.push(format!("bytes:{}", crate::hex(t.as_bytes()))); } }
+    if let Some(seed) = crate::gen::thorough_seed(ob) { for t in crate::gen::texts(seed, crate::gen::scale(ob, 600), true) { out.push(format!("bytes:{}", crate::hex(t.as_bytes()))); } }
     // numeric edge cases around the float scaling table (exponent magnitudes 307..311, 616..618) and digit-count limits
     for e in [307i32, 308, 309, 310, 311, 616, 617, 618, 1000] { for m in ["1", "0", "2.5", "123456789012345678901234567890", "0.000001"] { for sg in ["", "-"] {
         out.push(format!("bytes:{}", crate::hex(format!("{}e{}{}", m, sg, e).as_bytes())));
